@@ -89,8 +89,22 @@ def U_CCX():  # bits 0,1 controls; bit 2 target
     return m
 
 
-def U_PW(k):  # integer parameter: Z^(k/4)
+def U_PW(k):  # integer parameter: Z^(k/4); depends on the integer exactly (k mod 8), however large it is
+    import numbers
+
+    if isinstance(k, numbers.Integral) and not isinstance(k, bool):
+        k = int(k) % 8
     return np.array([[1, 0], [0, np.exp(1j * np.pi * k / 4)]], dtype=complex)
+
+
+U_PW.exact_ints = True
+
+
+def _pw_b(k):
+    return U_PW(-k)
+
+
+_pw_b.exact_ints = True
 
 
 def U_ZZ(t):  # exp(-i t/2 Z(x)Z): used for a *busy* (not parallelisable) native gate that nevertheless has a unitary
@@ -152,7 +166,7 @@ RAW_B.update({
     "Rx": (RAW["Rx"][0], U_Ry), "Ry": (RAW["Ry"][0], U_Rz), "Rz": (RAW["Rz"][0], U_Rx),
     "CX": (RAW["CX"][0], _cx_rev), "CP": (RAW["CP"][0], lambda t: U_CP(-2 * t)),
     "CRy": (RAW["CRy"][0], lambda t: U_CRy(-t)), "CRz": (RAW["CRz"][0], lambda t: U_CRz(-t)), "MS": (RAW["MS"][0], lambda a, t: U_MS(a + 0.5, t)),
-    "CCX": (RAW["CCX"][0], _ccz), "PW": (RAW["PW"][0], lambda k: U_PW(-k)),
+    "CCX": (RAW["CCX"][0], _ccz), "PW": (RAW["PW"][0], _pw_b),
 })
 VARIANTS = {"A": RAW, "B": RAW_B}
 
@@ -175,6 +189,11 @@ def plain_numbers(args):
     return [float(a) if (isinstance(a, int) and not isinstance(a, bool) and abs(a) >= 2 ** 62) else a for a in args]
 
 
+def call(fn, args):
+    """Evaluate a gate matrix function on classical arguments as the emulator hands them over."""
+    return fn(*(args if getattr(fn, "exact_ints", False) else plain_numbers(args)))
+
+
 def unitary(name, classical, variant="A"):
     """Independent evaluation of a gate matrix; None for idle / unitary-less gates."""
     if name.startswith("I_") or name in ("prepare_all", "measure_all"):
@@ -185,4 +204,4 @@ def unitary(name, classical, variant="A"):
     fn = VARIANTS[variant.rstrip("ds")][name][1]
     if fn is None:
         return None
-    return np.asarray(fn(*plain_numbers(classical)), dtype=complex)
+    return np.asarray(call(fn, classical), dtype=complex)
